@@ -548,9 +548,12 @@ class Sim:
         day: int = EPOCH_DAY,
         dirent: str = "sorted",
         cfg: Optional[dict] = None,
+        home: str = "org",
     ) -> None:
         self.root = root
-        self.zdir = os.path.join(root, "org")
+        # where the notes directory lives is an input too (~/org, ~/.local/share/zorg, ...)
+        self.home = home
+        self.zdir = os.path.join(root, home)
         self.seed = seed
         self.day = day
         self.dirent = dirent
@@ -571,8 +574,8 @@ class Sim:
         if os.path.exists(new_root):
             shutil.rmtree(new_root)
         os.makedirs(new_root)
-        shutil.copytree(self.zdir, os.path.join(new_root, "org"), symlinks=True)
-        s = Sim(new_root, seed=self.seed, day=self.day, dirent=self.dirent, cfg=self.cfg)
+        shutil.copytree(self.zdir, os.path.join(new_root, self.home), symlinks=True)
+        s = Sim(new_root, seed=self.seed, day=self.day, dirent=self.dirent, cfg=self.cfg, home=self.home)
         s.nproc = self.nproc
         return s
 
